@@ -111,6 +111,9 @@ class C01(Check):
                 {**base, 'behaviours': {'ret': {'kind': 'return', 'value': {'$py': 'odd-keys'}}}, 'text': t({'jsonrpc': '2.0', 'id': 1, 'method': 'ret'})},
                 {**base, 'behaviours': {'ret': {'kind': 'return', 'value': {'$py': 'tuple'}}}, 'codec': 'functions', 'text': t({'jsonrpc': '2.0', 'id': 1, 'method': 'ret'})},
                 {**base, 'behaviours': {'rpc_err': {'kind': 'raise_rpc', 'error': {'cls': 'QuotaError', 'code': None, 'message': None, 'data': {'value': {'limit': 3}}}}}, 'text': t([{'jsonrpc': '2.0', 'id': 1, 'method': 'rpc_err'}, {'jsonrpc': '2.0', 'method': 'rpc_err'}])},
+                {**base, 'text': t([{'jsonrpc': '2.0', 'id': 1, 'method': 'js.tag', 'params': [5]}, {'jsonrpc': '2.0', 'id': 2, 'method': 'js.tag', 'params': {'t': ['x']}},
+                                    {'jsonrpc': '2.0', 'id': 3, 'method': 'js.tag', 'params': ['ok', 1]}, {'jsonrpc': '2.0', 'method': 'js.tag', 'params': {'t': None}}])},
+                {**base, 'text': t({'jsonrpc': '2.0', 'id': 1, 'method': 'js.tag', 'params': {'t': {'deep': [1, 2]}}})},
                 {**base, 'text': {'raw': ''}},
                 {**base, 'text': {'raw': '[]'}},
                 {**base, 'text': t([1])},
